@@ -25,8 +25,8 @@ BUILT = {
     text="Seeded histories of calls and documents (with planted nulls, oversized integers, non-table roots, second documents) are checked call by call against a small reference model of the TOML output object and the output is re-read with the toml crate and compared with the generator's model value.",
     note="Trusted: the toml crate as the reader of the output; the generator's model values; floats restricted to short exact decimals so that C01's precision question is not re-decided."),
   "C11": dict(level="fault_enumeration", ref="§7 C11",
-    technique="deterministic simulation with fault injection: consumer fault at every output byte, syntax defect at every input byte, unrepresentable value at random tree positions; expected reasons probed from the serializer/parser crates",
-    text="For each sampled document the writer fault position and the syntax-defect position are enumerated completely; the expected cause text is obtained by driving the target serializer / source parser directly. Documents, formats and supply modes are sampled.",
+    technique="deterministic simulation with fault injection: consumer fault at every output byte, syntax defect at every input byte, unrepresentable value at random tree positions; expected reasons probed from the serializer/parser crates; 1 run in 10 drives the shipped binary under the syscall interposer and compares its standard-error line with the library's error text",
+    text="For each sampled document the writer fault position and the syntax-defect position are enumerated completely; the expected cause text is obtained by driving the target serializer / source parser directly. Documents, formats and supply modes are sampled. The process slice (long diagnostics, injected ENOSPC/EIO on fd 1) is sampling only.",
     note="Trusted: serde_json/serde_yaml/rmp-serde/toml as the source of 'the serializer's own reason'; for MessagePack output that reason omits the io text by design of rmp-serde."),
   "C04": dict(level="exploration", ref="§7 C04",
     technique="deterministic simulation swarm with fault injection (adversarial inputs x read schedules x producer/consumer faults x repeated calls) in crash-isolated workers with a watchdog; global no-panic/no-hang/no-crash invariants",
